@@ -686,13 +686,15 @@ where
         
         hash_map.clear();
         
-        // Reset all nodes and add to free list
+        // Reset all nodes and return every node index to the free list
+        // (indices that were already free must stay available, otherwise the
+        // usable capacity shrinks with every clear and put() starts failing)
         free_nodes.clear();
         for (i, node) in nodes.iter_mut().enumerate() {
             if node.is_valid {
                 node.reset();
-                free_nodes.push(i as u32);
             }
+            free_nodes.push(i as u32);
         }
         
         // Reset LRU list
